@@ -203,6 +203,33 @@ class Machine(object):
             return True
         return False            # not refused: the history is no longer the one the model describes
 
+    def _seal_siv_refused(self, ctx, cfg, nonce, aad, pt, salt):
+        """SIV takes a vector of components and one message: the refused calls go between the components."""
+        from ..util import Rng
+        rng = Rng(salt)
+        c = self._new(cfg, nonce)
+        after = False
+        try:
+            for a in aad + [None]:
+                if rng.random() < 0.5:
+                    try:
+                        c.update([5, None, 7.5, object()][rng.randrange(4)])
+                        return None
+                    except (TypeError, ValueError):
+                        ctx.fault("api.refused_call")
+                        after = True
+                if a is not None:
+                    c.update(a)
+            out = c.encrypt_and_digest(pt)
+        except (TypeError, ValueError):
+            if after:
+                ctx.probe("sender_failed_safe_after_refused_call")
+                return None
+            raise
+        if after:
+            ctx.probe("sender_streamed_with_refused_calls")
+        return out
+
     def _seal_stream(self, ctx, cfg, nonce, aad, pt, salt, refused):
         """The sender streams: associated data and plaintext in pieces (empty pieces included), optionally with calls the
         object refuses (wrong argument type, wrong output size) in between.  Returns (ct, tag), or None when the
@@ -322,6 +349,8 @@ class Machine(object):
             pt = F.D(r["pt"])
             style = r.get("style", "oneshot")
             res = None
+            if style == "stream_refused" and fam == "SIV":
+                res = self._seal_siv_refused(ctx, cfg, nonce, aad, pt, r.get("salt", 0))
             if style != "oneshot" and fam != "SIV":
                 res = self._seal_stream(ctx, cfg, nonce, aad, pt, r.get("salt", 0), style == "stream_refused")
                 if res is not None and res != self._seal(cfg, nonce, aad, pt):
